@@ -244,6 +244,19 @@ def n_asi_before_prefix_incdec(ref, src):
     return n
 
 
+def n_asi_before_regex(ref, src):
+    """semicolon inserted before a statement that starts with a regex literal, after a token
+    that implies division (break L / continue L / debugger / do-while `)`)"""
+    n = 0
+    for s in ref.semis:
+        if s['kind'] == 'inserted':
+            idx = _tok_index_at(ref, s['pos'])
+            if idx is not None and idx < len(ref.tokens) and ref.tokens[idx].type == 'regex':
+                src.gaps[idx] = ';' + src.gaps[idx]
+                n += 1
+    return n
+
+
 def n_ident_escape(ref, src):
     n = 0
     for i, k in enumerate(ref.tokens):
@@ -272,6 +285,7 @@ NEUTRALISERS = [
     ('c05.diveq_regex_after_brace_or_incdec', n_diveq_regex_after_backtrack_token),
     ('c04.asi_comment_newline', n_asi_comment_newline),
     ('c04.asi_before_prefix_incdec', n_asi_before_prefix_incdec),
+    ('c04.asi_before_regex', n_asi_before_regex),
     ('c03.ident_unicode_escape', n_ident_escape),
 ]
 
@@ -335,6 +349,18 @@ def over_acceptance_signature(text, failure, info):
         for n in nodes:
             if type(n).__name__ == 'PostfixExpr' and n.lexpos in incdec:
                 return 'c04.asi_before_prefix_incdec'
+    part = info.get('ref_partial_tokens', ())
+    # reserved word used as property name, then a slash that the grammar makes a division
+    for i in range(len(part) - 2):
+        if part[i].type == 'punct' and part[i].text == '.' and part[i + 1].type == 'keyword' \
+                and part[i + 1].text not in ('this', 'null', 'true', 'false') \
+                and part[i + 2].text.startswith('/'):
+            return 'c05.slash_after_reserved_prop'
+    # `throw` + comment + line terminator: the comment hides the restricted keyword
+    if msg == 'line terminator after throw' and part:
+        last = part[-1]
+        if len(part) >= 2 and has_comment(text[part[-2].end:last.start]):
+            return 'c04.asi_comment_newline'
     # expression statement starting with a function expression
     for n in nodes:
         if type(n).__name__ == 'ExprStatement':
